@@ -9,6 +9,10 @@ import XotModel.Driver.Compare
 import XotModel.Driver.Forest
 import XotModel.Driver.Fspec
 import XotModel.Driver.IdMap
+import XotModel.Driver.Axes
+import XotModel.Driver.Output
+import XotModel.Driver.Scope
+import XotModel.Driver.Ffixed
 
 open XotModel.Driver
 
@@ -19,6 +23,9 @@ def dispatch (st : DState) (line : String) : DState × String :=
   | "tree" :: rest => (st, (handleTree rest).getD "bad-request")
   | "cmp" :: rest => (st, (handleCmp st rest).getD "bad-request")
   | "idmap" :: rest => (handleIdMap st rest).getD (st, "bad-request")
+  | "axes" :: rest => (st, (handleAxes rest).getD "bad-request")
+  | "ser" :: rest => (st, (handleSer st rest).getD "bad-request")
+  | "scope" :: rest => (st, (handleScope st rest).getD "bad-request")
   | _ => (st, "bad-request")
 
 structure MState where
@@ -29,6 +36,7 @@ def dispatchAll (st : MState) (line : String) : MState × String :=
   match words line with
   | "forest" :: "spec" :: rest => (st, (handleFspec st.forest ("spec" :: rest)).getD "bad-request")
   | "forest" :: "specx" :: rest => (st, (handleFspec st.forest ("specx" :: rest)).getD "bad-request")
+  | "forest" :: "fixed" :: rest => (match handleFfixed st.forest rest with | some (fs, resp) => ({ st with forest := fs }, resp) | none => (st, "bad-request"))
   | "forest" :: rest =>
     (match handleForest st.forest rest with
      | some (fs, resp) => ({ st with forest := fs }, resp)
